@@ -5,6 +5,8 @@ export GOFLAGS=-mod=mod GOPROXY=off GOSUMDB=off GOTOOLCHAIN=local
 OUT=${1:-/verif/.work/baseline.gotest.json}
 mkdir -p "$(dirname "$OUT")"
 (cd /repo && go test -mod=mod -json -vet=off -count=1 -timeout 25m ./... ) > "$OUT" 2>/dev/null
+# the workceptor tests leave a status record in their package directory: remove it if it is untracked
+git -C /repo clean -fq -- pkg/workceptor/status pkg/workceptor/status.lock 2>/dev/null
 python3 - "$OUT" <<'PY'
 import json,sys
 passed=set()
